@@ -1,0 +1,41 @@
+//go:build verif
+
+package node
+
+import (
+	"sync/atomic"
+
+	"ergo.services/ergo/gen"
+)
+
+// Verification exports (build tag "verif"): access to the identifier counters of a node,
+// so that the harness can place them near the boundaries of MakeRef's bit fields.
+
+// VerifSetUniqID sets the counter behind MakeRef (references, aliases, event tokens).
+func VerifSetUniqID(n gen.Node, v uint64) bool {
+	nn, ok := n.(*node)
+	if !ok {
+		return false
+	}
+	atomic.StoreUint64(&nn.uniqID, v)
+	return true
+}
+
+// VerifUniqID reads the counter behind MakeRef.
+func VerifUniqID(n gen.Node) uint64 {
+	nn, ok := n.(*node)
+	if !ok {
+		return 0
+	}
+	return atomic.LoadUint64(&nn.uniqID)
+}
+
+// VerifSetNextID sets the process id counter.
+func VerifSetNextID(n gen.Node, v uint64) bool {
+	nn, ok := n.(*node)
+	if !ok {
+		return false
+	}
+	atomic.StoreUint64(&nn.nextID, v)
+	return true
+}
